@@ -150,6 +150,7 @@ Qed.
 Section OpsSafe.
   Variable cf : config.
   Variable fx : bool.   (* variant of claimAffineBlock, see ModelV.v: everything below holds for both *)
+  Variable fy : bool.   (* variant of releaseByHandle, see ModelV.v: likewise *)
 
   Definition Pips (h tag : N) (H : hist) (r : res (list N)) : Prop :=
     match r with inl ips => Forall (recorded H h tag) ips | inr _ => True end.
@@ -432,7 +433,7 @@ Section OpsSafe.
     apply safe_act; [exact I|]. intros H' rs E HO OK. destruct rs; try sret. apply release_loop_safe.
   Qed.
 
-  Lemma rbh_one_safe fuel : forall H c h, safe H (rbh_one cf fuel c h) Ptrue.
+  Lemma rbh_one_safe fuel : forall H c h, safe H (rbh_one_w cf fy fuel c h) Ptrue.
   Proof.
     induction fuel as [|f IH]; intros H c h; simpl; [exact I|].
     sb safe_get_block. destruct r as [[b brev]|e]; [|destruct e; sret].
@@ -440,21 +441,21 @@ Section OpsSafe.
     destruct n as [|n]; [sret|].
     dif.
     - sb safe_delete_block. destruct r as [u|e]; [sb dec_handle_safe; sret|].
-      destruct e; try sret; [sb dec_handle_safe; sret | apply IH].
+      destruct e; try sret; [destruct fy; [sret | sb dec_handle_safe; sret] | apply IH].
     - sb safe_update_block; [exact P | eapply blk_release_by_handle_trans; eauto |].
       destruct r as [[b2 rev2]|e]; [sb dec_handle_safe; sret|].
       destruct e; try sret. apply IH.
   Qed.
 
-  Lemma rbh_blocks_safe cs : forall H h, safe H (rbh_blocks cf cs h) Ptrue.
+  Lemma rbh_blocks_safe cs : forall H h, safe H (rbh_blocks_w cf fy cs h) Ptrue.
   Proof.
     induction cs as [|c t IH]; intros H h; simpl; [exact I|].
     sb rbh_one_safe. destruct r; [apply IH | sret].
   Qed.
 
-  Lemma release_by_handle_safe H h hint : safe H (release_by_handle cf h hint) Ptrue.
+  Lemma release_by_handle_safe H h hint : safe H (release_by_handle_w cf fy h hint) Ptrue.
   Proof.
-    unfold release_by_handle. sb safe_get_handle. destruct r as [[m rev]|e]; [apply rbh_blocks_safe | sret].
+    unfold release_by_handle_w. sb safe_get_handle. destruct r as [[m rev]|e]; [apply rbh_blocks_safe | sret].
   Qed.
 
   Lemma release_block_affinity_safe H host c must : safe H (release_block_affinity host c must) Ptrue.
@@ -499,7 +500,7 @@ Section OpsSafe.
     | _ => True
     end.
 
-  Theorem compile_safe H host o : safe H (compile_v cf fx host o) (op_post o).
+  Theorem compile_safe H host o : safe H (compile_w cf fx fy host o) (op_post o).
   Proof.
     destruct o; simpl.
     - apply auto_assign_safe.
@@ -514,7 +515,7 @@ Section OpsSafe.
   Fixpoint run_ops (host : N) (ops : list op) : prog (list (op * result)) :=
     match ops with
     | [] => Ret []
-    | o :: t => Cas.bind (compile_v cf fx host o) (fun r =>
+    | o :: t => Cas.bind (compile_w cf fx fy host o) (fun r =>
                 Cas.bind (run_ops host t) (fun rest => Ret ((o, r) :: rest)))
     end.
 
@@ -618,28 +619,28 @@ Section OpsSafe.
 End OpsSafe.
 
 (* spelled-out form of the block invariant for the statement of c19_single_owner *)
-Lemma reachable_blocks_single_owner cf fx clients evs e c b :
-  In e (st_ents (sy_store (@Cas.sys_run key value lopt key_eqb key_ltb lmatch (list (op * result)) (sys0 cf fx clients) evs))) ->
+Lemma reachable_blocks_single_owner cf fx fy clients evs e c b :
+  In e (st_ents (sy_store (@Cas.sys_run key value lopt key_eqb key_ltb lmatch (list (op * result)) (sys0 cf fx fy clients) evs))) ->
   e_key e = KBlock c -> e_val e = VBlock b ->
   bk_cidr b = c /\ NoDup (bk_unalloc b) /\
   (forall o, In o (bk_unalloc b) -> owner_of b o = None) /\
   (forall o x y, owner_of b o = Some x -> owner_of b o = Some y -> x = y).
 Proof.
-  intros Hin EK EV. pose proof (reachable_blocks_wf cf fx clients evs e Hin) as W. rewrite EK, EV in W.
+  intros Hin EK EV. pose proof (reachable_blocks_wf cf fx fy clients evs e Hin) as W. rewrite EK, EV in W.
   destruct W as [(ND & FREE & _) C]. split; auto. split; auto. split.
   - intros o Ho. destruct (FREE o Ho) as [FN _]. unfold owner_of. rewrite FN. reflexivity.
   - intros o x y A B. congruence.
 Qed.
 
 (* each block CIDR (hence each address) is held by at most one entry of any reachable datastore *)
-Lemma reachable_one_block_per_cidr cf fx clients evs e1 e2 c b1 b2 :
-  let s := sy_store (@Cas.sys_run key value lopt key_eqb key_ltb lmatch (list (op * result)) (sys0 cf fx clients) evs) in
+Lemma reachable_one_block_per_cidr cf fx fy clients evs e1 e2 c b1 b2 :
+  let s := sy_store (@Cas.sys_run key value lopt key_eqb key_ltb lmatch (list (op * result)) (sys0 cf fx fy clients) evs) in
   In e1 (st_ents s) -> In e2 (st_ents s) ->
   e_key e1 = KBlock c -> e_val e1 = VBlock b1 -> e_key e2 = KBlock (bk_cidr b2) -> e_val e2 = VBlock b2 ->
   bk_cidr b1 = bk_cidr b2 -> e1 = e2.
 Proof.
   intros s H1 H2 K1 V1 K2 V2 EQ.
-  pose proof (reachable_blocks_wf cf fx clients evs e1 H1) as W1. rewrite K1, V1 in W1. destruct W1 as [_ C1].
+  pose proof (reachable_blocks_wf cf fx fy clients evs e1 H1) as W1. rewrite K1, V1 in W1. destruct W1 as [_ C1].
   eapply (@Cas.NoDup_keys_inj key value); eauto.
   - apply (@Cas.sys_run_keys key value lopt key_eqb key_ltb lmatch key_eqb_eq (list (op * result))).
     simpl. constructor.
